@@ -260,6 +260,202 @@ def RTree.idsKids : List RTree → List Nat
   | k :: ks => RTree.ids k ++ RTree.idsKids ks
 end
 
+/-! ### `TreeTensorNetworkOperator.from_state_diagram` (tensor filling) and the contraction of a TTNO
+
+`obtain_tensor_shape`: one bond index per vertex of each incident edge (parent first, children in
+reference order), physical dimension from the operator table (`dimOf` of the first hyperedge's label).
+`find_tensor_position`: the position of a hyperedge is the tuple of the indices of its vertices in the
+collections of the incident edges - in the model a vertex *is* that index, so the position is `(pv, kv)`.
+The operator `λ · γ · label` is ADDED at that position (`+=`): a cell holds the list of all contributions. -/
+
+/-- One contribution to a tensor entry: `lam · gam · (operator of label)`. -/
+structure Item where
+  lam : Rat
+  gam : String
+  label : String
+deriving Repr, DecidableEq
+
+/-- Position in a node tensor: index on the parent leg (absent at the root), indices on the child legs. -/
+abbrev Pos := Option Nat × List Nat
+
+/-- The non-zero cells of a tensor (finitely supported map position ↦ formal operator sum). -/
+abbrev Cells := List (Pos × List Item)
+
+/-- `tensor[position] += item`. -/
+def addAt : Cells → Pos → Item → Cells
+  | [], p, x => [(p, [x])]
+  | (q, xs) :: rest, p, x => if q = p then (q, xs ++ [x]) :: rest else (q, xs) :: addAt rest p x
+
+/-- `tensor[position]` (the empty sum where nothing was written). -/
+def entryAt : Cells → Pos → List Item
+  | [], _ => []
+  | (q, xs) :: rest, p => if q = p then xs else entryAt rest p
+
+def HE.item (h : HE) : Item := ⟨h.lam, h.gam, h.label⟩
+
+/-- The loop `for he in hyperedges: tensor[position(he)] += operator(he)` over one node. -/
+def fillCells (hes : List HE) : Cells :=
+  hes.foldl (fun T h => addAt T (h.pv, h.kv) h.item) []
+
+/-- The position of a hyperedge lies inside the allocated tensor: parent index below the parent bond
+    (no parent index at the root), exactly one index per child leg, each below that leg's bond.
+    (Otherwise NumPy raises `IndexError`.) -/
+def kvIn : List Nat → List Nat → Bool
+  | [], [] => true
+  | v :: vs, n :: ns => decide (v < n) && kvIn vs ns
+  | [], _ :: _ => false
+  | _ :: _, [] => false
+
+def pvIn : Option Nat → Option Nat → Bool
+  | none, none => true
+  | some p, some n => decide (p < n)
+  | none, some _ => false
+  | some _, none => false
+
+def inShape (pb : Option Nat) (kb : List Nat) (h : HE) : Bool := pvIn h.pv pb && kvIn h.kv kb
+
+/-- A tree tensor network operator: identifier, bond to the parent (`none` at the root), physical
+    dimension, the non-zero cells of the node tensor, children in reference order. -/
+inductive TTNO where
+  | node (id : Nat) (pbond : Option Nat) (phys : Nat) (cells : Cells) (kids : List TTNO)
+deriving Repr
+
+def TTNO.id : TTNO → Nat
+  | .node i _ _ _ _ => i
+def TTNO.bond : TTNO → Nat
+  | .node _ pb _ _ _ => pb.getD 0
+def TTNO.kids : TTNO → List TTNO
+  | .node _ _ _ _ ks => ks
+
+mutual
+/-- `from_state_diagram`: `none` where the Python code raises (a node without hyperedge has no shape,
+    a position outside the tensor is an `IndexError`). -/
+def fillAt (dimOf : String → Nat) (isRoot : Bool) : SD → Option TTNO
+  | .node i nv hes kids =>
+    match fillKids dimOf kids with
+    | none => none
+    | some ks =>
+      match hes with
+      | [] => none
+      | h0 :: _ =>
+        if hes.all (inShape (if isRoot then none else some nv) (kids.map SD.nv)) then
+          some (.node i (if isRoot then none else some nv) (dimOf h0.label) (fillCells hes) ks)
+        else none
+def fillKids (dimOf : String → Nat) : List SD → Option (List TTNO)
+  | [] => some []
+  | k :: ks =>
+    match fillAt dimOf false k with
+    | none => none
+    | some a =>
+      match fillKids dimOf ks with
+      | none => none
+      | some as => some (a :: as)
+end
+
+def fillTTNO (dimOf : String → Nat) (d : SD) : Option TTNO := fillAt dimOf true d
+
+/-- All index tuples below the given bond dimensions (lexicographic). -/
+def allTuples : List Nat → List (List Nat)
+  | [] => [[]]
+  | n :: ns => (List.range n).flatMap fun v => (allTuples ns).map (v :: ·)
+
+def attachItem (i : Nat) (it : Item) (m : Mono) : Mono :=
+  ⟨it.lam * m.coef, mulSyms (symMono it.gam) m.syms, (i, it.label) :: m.asg⟩
+
+mutual
+/-- Contraction of the subtree below a node, for a fixed index `pv` on the leg to its parent: sum over
+    ALL index tuples of the child legs of (entry at that position) ⊗ (contractions of the children at
+    those indices). -/
+def contractAt : TTNO → Option Nat → FSum
+  | .node i _ _ cells kids, pv =>
+    (allTuples (contractBonds kids)).flatMap fun kv =>
+      (entryAt cells (pv, kv)).flatMap fun it => (contractKids kids kv).map (attachItem i it)
+def contractKids : List TTNO → List Nat → FSum
+  | [], [] => [Mono.one]
+  | k :: ks, v :: vs => FSum.mul (contractAt k (some v)) (contractKids ks vs)
+  | [], _ :: _ => []
+  | _ :: _, [] => []
+def contractBonds : List TTNO → List Nat
+  | [] => []
+  | k :: ks => k.bond :: contractBonds ks
+end
+
+/-- The formal operator a TTNO contracts to: sum over all assignments of one index to every edge. -/
+def ttnoContract (T : TTNO) : FSum := contractAt T none
+
+/-- Identifiers and parent/child relations. -/
+inductive Skel where
+  | node (id : Nat) (kids : List Skel)
+deriving Repr
+
+mutual
+def RTree.skel : RTree → Skel
+  | .node i _ kids => .node i (RTree.skelKids kids)
+def RTree.skelKids : List RTree → List Skel
+  | [] => []
+  | k :: ks => k.skel :: RTree.skelKids ks
+end
+mutual
+def SD.skel : SD → Skel
+  | .node i _ _ kids => .node i (SD.skelKids kids)
+def SD.skelKids : List SD → List Skel
+  | [] => []
+  | k :: ks => k.skel :: SD.skelKids ks
+end
+mutual
+def TTNO.skel : TTNO → Skel
+  | .node i _ _ _ kids => .node i (TTNO.skelKids kids)
+def TTNO.skelKids : List TTNO → List Skel
+  | [] => []
+  | k :: ks => k.skel :: TTNO.skelKids ks
+end
+
+mutual
+/-- (child identifier, bond dimension) of every edge of a TTNO. -/
+def TTNO.bondsBelow : TTNO → List (Nat × Nat)
+  | .node _ _ _ _ kids => TTNO.bondsKids kids
+def TTNO.bondsKids : List TTNO → List (Nat × Nat)
+  | [] => []
+  | k :: ks => (k.id, k.bond) :: (TTNO.bondsBelow k ++ TTNO.bondsKids ks)
+end
+
+mutual
+/-- (identifier, physical dimension) of every node (preorder). -/
+def TTNO.physDims : TTNO → List (Nat × Nat)
+  | .node i _ ph _ kids => (i, ph) :: TTNO.physKids kids
+def TTNO.physKids : List TTNO → List (Nat × Nat)
+  | [] => []
+  | k :: ks => TTNO.physDims k ++ TTNO.physKids ks
+end
+
+mutual
+def RTree.dimsOf : RTree → List (Nat × Nat)
+  | .node i dim kids => (i, dim) :: RTree.dimsKids kids
+def RTree.dimsKids : List RTree → List (Nat × Nat)
+  | [] => []
+  | k :: ks => RTree.dimsOf k ++ RTree.dimsKids ks
+end
+
+mutual
+/-- (identifier, label of the first hyperedge) of every node (preorder): `obtain_tensor_shape` reads the
+    physical dimension off the first hyperedge of the node's collection. -/
+def SD.firstLabels : SD → List (Nat × String)
+  | .node i _ hes kids => (i, (hes.head?.map HE.label).getD "") :: SD.firstLabelsKids kids
+def SD.firstLabelsKids : List SD → List (Nat × String)
+  | [] => []
+  | k :: ks => SD.firstLabels k ++ SD.firstLabelsKids ks
+end
+
+mutual
+/-- Every node has at least one hyperedge, and hyperedges name a vertex on the parent edge exactly at
+    the non-root nodes (`r` = "this node is the root"). -/
+def Populated (r : Bool) : SD → Prop
+  | .node _ _ hes kids => hes ≠ [] ∧ (∀ h ∈ hes, h.pv.isSome = !r) ∧ PopulatedKids kids
+def PopulatedKids : List SD → Prop
+  | [] => True
+  | k :: ks => Populated false k ∧ PopulatedKids ks
+end
+
 /-! ### Well-formedness (what `from_state_diagram` relies on) -/
 
 /-- `vs` names one existing vertex per child edge. -/
